@@ -5,6 +5,7 @@ from harness.common import clist, cpair, coq_failing, coq_show
 from harness import common
 
 IMPORTS = "Model.Retry Model.Traverse Model.TraverseRun Check.Trav"
+# (cases.v needs float literals: the prelude of the traversal cases imports PrimFloat)
 
 WORKER_SETS = [
     [{"id": "net1"}],
@@ -35,6 +36,8 @@ def gen_spec(rng, flavour=None):
             st = {"name": STATE_NAMES[d], "parent": parent, "level": "images" if d == 0 or rng.random() < 0.6 else "vms"}
             if d > 0 and rng.random() < (0.5 if flavour == "removable" else 0.12):
                 st["unset"] = rng.choice(["fi", "fi", "fa", "ri"])
+                if rng.random() < 0.4:
+                    st["unset_spelling"] = "untyped"
             if rng.random() < 0.15:
                 st["params"] = {"max_tries": rng.choice(["2", "3"])}
             chain.append(st)
@@ -113,9 +116,16 @@ def outcome_policy(rng, spec):
     return outcome
 
 
-def one_case(rng, flavour=None, max_sections=2500, fixed=None):
+def one_case(rng, flavour=None, max_sections=2500, fixed=None, timed=False):
     """fixed = (spec, initial pools, schedule) replays a stored case exactly"""
     spec = fixed[0] if fixed else gen_spec(rng, flavour)
+    if timed and not fixed:
+        # short time-outs keep the number of back-off periods per test small
+        spec["node_params"]["test_timeout"] = rng.choice(["1", "2", "3"])
+        for sts in spec["states"].values():
+            for st in sts:
+                if rng.random() < 0.3:
+                    st.setdefault("params", {})["test_timeout"] = rng.choice(["1", "2", "4"])
     g, workers, root = trav.build_graph(spec)
     x = trav.Export(g, workers)
     if fixed:
@@ -126,19 +136,20 @@ def one_case(rng, flavour=None, max_sections=2500, fixed=None):
     store_t = x.store_term(store)
     run = trav.Run(g, workers, x, store, None, max_sections=max_sections)
     run.go(rng, outcome_policy(rng, spec), wake_bias=rng.choice([0.2, 0.5, 0.9]),
-           fixed=[tuple(s) for s in fixed[2]] if fixed else None)
+           fixed=[tuple(s) for s in fixed[2]] if fixed else None, timed=timed)
+    run_timed = timed
     events_t = clist([clist([trav.event_term(x, e) for e in evs]) for evs in run.events])
     term = cpair(graph_t, store_t, trav.schedule_term(run.sections), events_t)
-    return {"spec": spec, "store": {str(k): sorted(v) for k, v in store.items()}, "run": run, "term": term, "x": x}
+    return {"spec": spec, "store": {str(k): sorted(v) for k, v in store.items()}, "run": run, "term": term, "x": x, "timed": timed}
 
 
-def run_batch(ctx, n, flavours, tag, max_sections=2500, fixed=None):
+def run_batch(ctx, n, flavours, tag, max_sections=2500, fixed=None, timed_share=0.0):
     """runs n traversals; returns the cases with 'diff' (index of the first differing section or None)"""
     cases = []
     if fixed:
         cases.append(one_case(ctx.rng, None, max_sections, fixed))
     for k in range(n):
-        cases.append(one_case(ctx.rng, flavours[k % len(flavours)], max_sections))
+        cases.append(one_case(ctx.rng, flavours[k % len(flavours)], max_sections, timed=(ctx.rng.random() < timed_share)))
     res = coq_failing(ctx, IMPORTS, "trav_case", [c["term"] for c in cases], ["trav_corr"], shard=max(1, len(cases) // 16 + 1), tag=tag,
                       timeout=900)
     bad = set(res["trav_corr"])
